@@ -440,12 +440,22 @@ class RulesSuite(Suite):
                 continue
             _, appname, procs, sfs0, rfs0 = q
             loads, statuses = [], []
+            # the real call path: Context.setdefault_process creates the rules of a new process from the application's
+            # failure strategies, then lets the rules file supersede them
+            from supvisors.application import ApplicationStatus
+            from drv_strategy import proc_payload
+            ctx = self.supv.context
+            arules = ApplicationRules(self.supv)
+            arules.starting_failure_strategy = StartingFailureStrategies[sfs0]
+            arules.running_failure_strategy = RunningFailureStrategies[rfs0]
+            ctx.applications.clear()
+            ctx.applications[appname] = ApplicationStatus(appname, arules, self.supv)
+            self.supv.parser = parser
             for pname, pindex in procs:
-                rules = ProcessRules(self.supv)
-                rules.starting_failure_strategy = StartingFailureStrategies[sfs0]
-                rules.running_failure_strategy = RunningFailureStrategies[rfs0]
                 try:
-                    parser.load_program_rules(make_namespec(appname, pname), rules)
+                    process = ctx.setdefault_process(self.supv.mapper.local_identifier,
+                                                     proc_payload(appname, pname, 'STOPPED'))
+                    rules = process.rules
                 except Exception as exc:
                     loads.append(['crash', svenv.crash_kind(exc)])
                     continue
